@@ -46,9 +46,10 @@ type zzPr struct{ day, com, tgt, p int }
 type zzCl struct{ day, acc int }
 
 type zzShape struct {
-	bk []zzBk
-	pr []zzPr
-	cl []zzCl // close directives
+	bk   []zzBk
+	pr   []zzPr
+	cl   []zzCl // close directives
+	tied bool   // two more transactions with the same date and description, one's postings a prefix of the other's
 }
 
 var zzConstQ = []string{"0", "-3.5", "100", "0.00000001", "12345.678"}
@@ -76,6 +77,10 @@ var zzShapes = []zzShape{
 	13: {bk: []zzBk{{0, aEq, aX, 0, 0}, {3, aEq, aX, 0, 1}}, cl: []zzCl{{1, aX}}},
 	// accounts closed after their last use
 	14: {bk: []zzBk{{0, aEq, aX, 0, 0}, {1, aEq, aA, 1, 1}, {2, aA, aEq, 1, 1}}, pr: []zzPr{{0, 1, 0, 0}, {2, 1, 0, 1}}, cl: []zzCl{{3, aX}, {4, aA}}},
+	// transactions that compare equal up to a prefix of their postings
+	15: {bk: []zzBk{{0, aEq, aA, 0, 0}}, tied: true},
+	// one account holding the same quantity of two commodities
+	16: {bk: []zzBk{{0, aEq, aA, 1, 0}, {0, aEq, aA, 2, 0}, {1, aEq, aL, 1, 1}}},
 }
 
 type zzInputs struct {
@@ -129,30 +134,76 @@ func (in zzInputs) qty(slot int) decimal.Decimal {
 
 // zzBuildShape builds the journal of a shape through the real model constructors.
 func zzBuildShape(reg *model.Registry, sh zzShape, in zzInputs) *journal.Builder {
+	return zzBuildShapePerm(reg, sh, in, nil)
+}
+
+// zzOwn is the number of directives of a shape besides the opens.
+func zzOwn(sh zzShape) int {
+	n := len(sh.pr) + len(sh.cl) + len(sh.bk)
+	if sh.tied {
+		n += 2
+	}
+	return n
+}
+
+// zzBuildShapePerm adds the shape's directives (prices, closes, bookings) in the
+// arrival order given by perm (nil = canonical).
+func zzBuildShapePerm(reg *model.Registry, sh zzShape, in zzInputs, perm []int) *journal.Builder {
 	b := journal.New()
-	for _, name := range zzAccounts {
-		b.Add(&model.Open{Date: zzDate("2019-12-31"), Account: reg.Accounts().MustGet(name)})
-	}
-	for _, p := range sh.pr {
-		b.Add(&model.Price{Date: zzDate(zzDays[p.day]), Commodity: reg.Commodities().MustGet(zzComms[p.com]), Price: in.p[p.p], Target: reg.Commodities().MustGet(zzComms[p.tgt])})
-	}
-	for _, c := range sh.cl {
-		b.Add(&model.Close{Date: zzDate(zzDays[c.day]), Account: reg.Accounts().MustGet(zzAccounts[c.acc])})
-	}
-	for i, k := range sh.bk {
-		b.Add(transaction.Builder{
-			Date:        zzDate(zzDays[k.day]),
-			Description: fmt.Sprintf("t%d", i),
-			Postings: posting.Builder{
-				Credit:    reg.Accounts().MustGet(zzAccounts[k.cr]),
-				Debit:     reg.Accounts().MustGet(zzAccounts[k.dr]),
-				Commodity: reg.Commodities().MustGet(zzComms[k.com]),
-				Quantity:  in.qty(k.q),
-			}.Build(),
-		}.Build())
+	for _, d := range zzShapeDirectives(reg, sh, in, perm) {
+		b.Add(d)
 	}
 	return b
 }
+
+// zzShapeDirectives returns the directives of a shape in arrival order.
+func zzShapeDirectives(reg *model.Registry, sh zzShape, in zzInputs, perm []int) []model.Directive {
+	var b zzDirList
+	for _, name := range zzAccounts {
+		b.Add(&model.Open{Date: zzDate("2019-12-31"), Account: reg.Accounts().MustGet(name)})
+	}
+	n := zzOwn(sh)
+	for pos := 0; pos < n; pos++ {
+		i := pos
+		if perm != nil {
+			i = perm[pos]
+		}
+		switch {
+		case i < len(sh.pr):
+			p := sh.pr[i]
+			b.Add(&model.Price{Date: zzDate(zzDays[p.day]), Commodity: reg.Commodities().MustGet(zzComms[p.com]), Price: in.p[p.p], Target: reg.Commodities().MustGet(zzComms[p.tgt])})
+		case i < len(sh.pr)+len(sh.cl):
+			c := sh.cl[i-len(sh.pr)]
+			b.Add(&model.Close{Date: zzDate(zzDays[c.day]), Account: reg.Accounts().MustGet(zzAccounts[c.acc])})
+		case i >= len(sh.pr)+len(sh.cl)+len(sh.bk):
+			// the two tied transactions: same date, same description; postings P and P+Q
+			ti := i - len(sh.pr) - len(sh.cl) - len(sh.bk)
+			pp := posting.Builder{Credit: reg.Accounts().MustGet(zzAccounts[aEq]), Debit: reg.Accounts().MustGet(zzAccounts[aA]), Commodity: reg.Commodities().MustGet("V"), Quantity: decimal.RequireFromString("5")}.Build()
+			if ti == 1 {
+				pp = append(pp, posting.Builder{Credit: reg.Accounts().MustGet(zzAccounts[aA]), Debit: reg.Accounts().MustGet(zzAccounts[aX]), Commodity: reg.Commodities().MustGet("V"), Quantity: decimal.RequireFromString("2")}.Build()...)
+			}
+			b.Add(transaction.Builder{Date: zzDate(zzDays[1]), Description: "tie", Postings: pp}.Build())
+		default:
+			bi := i - len(sh.pr) - len(sh.cl)
+			k := sh.bk[bi]
+			b.Add(transaction.Builder{
+				Date:        zzDate(zzDays[k.day]),
+				Description: fmt.Sprintf("t%d", bi),
+				Postings: posting.Builder{
+					Credit:    reg.Accounts().MustGet(zzAccounts[k.cr]),
+					Debit:     reg.Accounts().MustGet(zzAccounts[k.dr]),
+					Commodity: reg.Commodities().MustGet(zzComms[k.com]),
+					Quantity:  in.qty(k.q),
+				}.Build(),
+			}.Build())
+		}
+	}
+	return b.ds
+}
+
+type zzDirList struct{ ds []model.Directive }
+
+func (l *zzDirList) Add(d model.Directive) { l.ds = append(l.ds, d) }
 
 // zzCell is one cell of the report in a renderer independent form.
 type zzCell struct {
@@ -165,6 +216,11 @@ type zzCell struct {
 // without any text are dropped, as the CSV renderer does).
 func zzReport(r *balanceRunner, build func(reg *model.Registry) *journal.Builder) ([][]zzCell, error) {
 	return zzReportVia(r, func(exec func(cmd *cobra.Command, args []string) error) (string, error) { return zzRun(build, exec) })
+}
+
+// zzReportDirs: as zzReport for an ordered list of directives (arrival order preserved natively).
+func zzReportDirs(r *balanceRunner, dirs func(reg *model.Registry) []model.Directive) ([][]zzCell, error) {
+	return zzReportVia(r, func(exec func(cmd *cobra.Command, args []string) error) (string, error) { return zzRunDirs(dirs, exec) })
 }
 
 // zzReportText: as zzReport for a journal given as text.
